@@ -114,6 +114,12 @@ Op ==
                                     "StopResultNotInTable")
             /\ rcv' = IF e.res = "Ok" THEN Set(rcv, k, [r EXCEPT !.stopped = TRUE]) ELSE rcv
             /\ UNCHANGED <<snd, opened, acc>>
+       [] e.op = "received_reset" ->
+            /\ bad' = bad \cup Flag(unsure \/ (IF known THEN e.res \in ReceivedResetResults(rOps) ELSE e.res = "ClosedStream"),
+                                    "ReceivedResetResultNotInTable")
+                          \cup Flag(e.res = "Some" => r.rstArr = e.code, "ResetOutcomeWithoutReset")
+            /\ rcv' = IF e.res = "Some" THEN Set(rcv, k, [r EXCEPT !.term = "rst"]) ELSE rcv
+            /\ UNCHANGED <<snd, opened, acc>>
        [] e.op = "open" ->
             /\ bad' = bad \cup Flag(e.res = "Some" => (Initiator(e.id) = e.side /\ IsUni(e.id) = (e.arg = 1)
                                                          /\ <<e.side, e.id>> \notin opened), "OpenReturnedWrongId")
